@@ -426,6 +426,7 @@ def gen_surface(rng, variant=None, spt=None, nfiles=None, style=None, alphabet=N
     nonce = rng.getrandbits(16) if nonce is None else nonce
     if variant == 'opus':
         spt = 18
+        tracks_forced = tracks is not None
         tracks = tracks or rng.choice([35, 40, 80])
         nsec = tracks * 18
         nv = opus_nvols or rng.choice([1, 2, 3, 8, rng.randint(1, 8)])
@@ -438,11 +439,11 @@ def gen_surface(rng, variant=None, spt=None, nfiles=None, style=None, alphabet=N
             # the 10-bit total field limits a volume to 1023 sectors (56 tracks)
             if all((e - s) * 18 <= 1023 for s, e in zip(starts, ends)):
                 break
-            if nv == 1:
+            if nv == 1 and not tracks_forced:
                 tracks = rng.choice([35, 40])
                 nsec = tracks * 18
             else:
-                nv = min(8, nv + 1) if rng.random() < 0.5 else nv
+                nv = min(8, nv + 1) if (nv == 1 or rng.random() < 0.5) else nv
         vols = []
         for i, (s, e) in enumerate(zip(starts, ends)):
             vlen = (e - s) * 18
@@ -498,6 +499,7 @@ def ssd_image(surfaces):
 
 def dsd_image(s0, s1):
     a, b = s0.image(), s1.image()
+    assert len(a) == len(b) and s0.spt == s1.spt
     spt = s0.spt
     tb = spt * SECTOR
     out = bytearray()
